@@ -3274,6 +3274,10 @@ nice_agent_set_relay_info(NiceAgent *agent,
 
       if (agent->discovery_unsched_items)
         discovery_schedule (agent);
+      else
+        /* No local candidate of the server's address family: nothing was
+         * started, so this gathering run is already over. */
+        agent_gathering_done (agent);
     }
   }
 
